@@ -198,6 +198,7 @@ def run(ctx, f, rep):
     # the counter may only advance (a reset makes old parked tickets lose to every new one)
     heap_ops = {}
     ctr_ops = {}
+    qmod = "::".join(ipath.split("::")[-2:-1]) + "::"        # e.g. "fair_queue::"
     for b in f.bodies:
         if "::test" in b.path:
             continue
@@ -207,7 +208,8 @@ def run(ctx, f, rep):
             a0 = t["args"][0]
             e0 = b.expr_of_operand(a0)
             on_heap = "BinaryHeap" in fn["path"] and any(isinstance(x, tuple) and x and x[0] == "field" and x[2] == names["heap"] for x in walk_expr(e0))
-            on_ctr = "Atomic" in fn["path"] and names.get("counter") and any(isinstance(x, tuple) and x and x[0] == "field" and x[2] == names["counter"] for x in walk_expr(e0))
+            # the ticket counter: every atomic of the queue's own module (the field itself, or a private newtype around it)
+            on_ctr = "Atomic" in fn["path"] and qmod in b.path
             if on_heap:
                 heap_ops.setdefault(fn["name"], []).append((b, bb))
             if on_ctr:
@@ -245,7 +247,7 @@ def run(ctx, f, rep):
         rep.check(inc is not None and inc[0] == "int" and inc[1] >= 1, "R06.5", "R06.5|%s|counter-advances" % b.path, "the ticket counter advances by a positive constant (%s)" % (show(inc) if inc else None), b.loc(bb))
     if not bad_ctr:
         rep.ok("R06.5", "R06.5|counter-only-advances", "the ticket counter is only read and advanced (operations seen: %s)" % sorted(ctr_ops))
-    rep.floor("R06.5", "fetch_add sites on the ticket counter", len(ctr_ops.get("fetch_add", [])), 2)
+    rep.floor("R06.5", "fetch_add sites on the ticket counter", len(ctr_ops.get("fetch_add", [])), 1)
     # ordering
     cmps = [b for b in f.bodies if b.j.get("name") == "cmp" and (b.j.get("impl_trait") or "").endswith("cmp::Ord") and "fair_queue" in b.path]
     rep.floor("R06.3", "Ord::cmp of the ready event", len(cmps), 1)
